@@ -316,6 +316,11 @@ func (ai *MinimaxAI) GetMove(ctx context.Context, p *tak.Position) tak.Move {
 			continue
 		}
 		pts := (cv - base) / ai.Cfg.RandomizeScale
+		if pts <= 0 {
+			// a scale larger than the margin: no weight, and
+			// rand.Int63n(0) below would panic
+			continue
+		}
 		i += pts
 		if ai.Cfg.Debug > 2 {
 			log.Printf("rand m=%s v=%d cv=%d pts=%d i=%d",
